@@ -12,13 +12,26 @@ Proof.
   - destruct (String.eqb x (td_name e)); intros H; inversion H; subst. now left.
 Qed.
 
-Lemma sanity_env_wf D : sanity_typedefs D = Ok true ->
-  forall x d, tlookup D x = Some d -> check_wf D (td_body d) = true.
+Lemma sanity_env_both D : sanity_typedefs D = Ok true ->
+  forall x d, tlookup D x = Some d -> check_wf D (td_body d) = true /\ mode_of (td_body d) = td_mode d.
 Proof.
   unfold sanity_typedefs. destruct (has_dup (map td_name D)); try discriminate.
-  destruct (forallb (fun d => check_wf D (td_body d)) D) eqn:E; cbn; try discriminate.
-  intros _ x d H. rewrite forallb_forall in E. apply E. eapply tlookup_in; eauto.
+  destruct (forallb (fun d => check_wf D (td_body d) && mode_eqb (mode_of (td_body d)) (td_mode d)) D) eqn:E; cbn; try discriminate.
+  intros _ x d H. rewrite forallb_forall in E. specialize (E d (tlookup_in _ _ _ H)).
+  apply andb_prop in E. destruct E as (Hw & Hm). split; auto.
+  apply mode_eqb_proper; auto.
+  unfold check_wf in Hw. apply andb_prop in Hw. destruct Hw as (_ & Hw).
+  (* the head mode of a type that passes checkTypeModalities is a proper mode: a local copy of
+     WfFacts.check_modes_head, which lives in a section with the environment hypotheses *)
+  clear -Hw. destruct (td_body d); cbn in *; unfold mode_ok in *;
+    repeat match goal with H : _ && _ = true |- _ => apply andb_prop in H; destruct H end; auto.
 Qed.
+Lemma sanity_env_wf D : sanity_typedefs D = Ok true ->
+  forall x d, tlookup D x = Some d -> check_wf D (td_body d) = true.
+Proof. intros H x d Hl. exact (proj1 (sanity_env_both D H x d Hl)). Qed.
+Lemma sanity_env_moded D : sanity_typedefs D = Ok true ->
+  forall x d, tlookup D x = Some d -> mode_of (td_body d) = td_mode d.
+Proof. intros H x d Hl. exact (proj2 (sanity_env_both D H x d Hl)). Qed.
 
 Lemma mode_same_eq a b : mode_same a b = true -> a = b.
 Proof. destruct a, b; cbn; try discriminate; auto. intros H. apply String.eqb_eq in H. now subst. Qed.
@@ -207,16 +220,15 @@ Proof.
 Qed.
 
 Theorem tc_independent p p' :
-  env_moded_b (p_types p) = true -> typecheck p = Accept p' ->
+  typecheck p = Accept p' ->
   IndepProgram p p' /\ DropSplitProgram p p'.
 Proof.
-  unfold typecheck. intros Hm H. destruct (tc_program p) as [q| | |] eqn:Hp; try discriminate.
+  unfold typecheck. intros H. destruct (tc_program p) as [q| | |] eqn:Hp; try discriminate.
   inversion H; subst q; clear H.
   unfold tc_program in Hp. tinv Hp. inversion Hp; subst p'; clear Hp.
   set (D := p_types p) in *.
   match goal with E : lift (sanity_typedefs D) = TOk _, G : guard _ _ = TOk _ |- _ =>
-    apply lift_ok in E; apply guard_ok in G; subst; pose proof (sanity_env_wf _ E) as env_wf end.
-  pose proof (env_moded_ok _ Hm) as env_moded.
+    apply lift_ok in E; apply guard_ok in G; subst; pose proof (sanity_env_wf _ E) as env_wf; pose proof (sanity_env_moded _ E) as env_moded end.
   match goal with Hf : prelim_funs _ _ _ = TOk ?fs |- _ =>
     pose proof (prelim_funs_shape _ _ _ _ Hf) as Sf; pose proof (prelim_funs_ok _ _ _ _ Hf) as Of; set (fs1 := fs) in * end.
   match goal with Hf : prelim_procs _ _ _ = TOk (?ps, ?as') |- _ =>
@@ -285,7 +297,7 @@ Proof.
       eapply Forall_impl; [|exact (HP _ _ Hin false (WP _ _ Hin))]. intros s (_ & _ & C). auto.
 Qed.
 
-Corollary tc_indep_program p p' : env_moded_b (p_types p) = true -> typecheck p = Accept p' -> IndepProgram p p'.
-Proof. intros Hm H. exact (proj1 (tc_independent p p' Hm H)). Qed.
-Corollary tc_drop_split_program p p' : env_moded_b (p_types p) = true -> typecheck p = Accept p' -> DropSplitProgram p p'.
-Proof. intros Hm H. exact (proj2 (tc_independent p p' Hm H)). Qed.
+Corollary tc_indep_program p p' : typecheck p = Accept p' -> IndepProgram p p'.
+Proof. intros H. exact (proj1 (tc_independent p p' H)). Qed.
+Corollary tc_drop_split_program p p' : typecheck p = Accept p' -> DropSplitProgram p p'.
+Proof. intros H. exact (proj2 (tc_independent p p' H)). Qed.
